@@ -238,6 +238,12 @@ NOT_APPLICABLE = []
 
 # session 3: environment audits / strengthening (DESIGN.md 8.6 round 3, 8.7) and L2 lanes (DESIGN.md 9)
 EXTRA_NOTES = {
+    "C15": "session 3: L2 lane (EventModel composed from CsrBankModel); managers with 3-6 sources run on the netlist in T-mode and exhaustively on the model (narrowed trigger alphabet), G-mode keeps 1-2 sources per manager",
+    "C12": "session 3: L2 lane (CsrBankModel incl. csr_bus.SRAM and the construction/ordering of registers): conformance on 401k graph edges and 1836 construction cases; M-mode banks of 5-6 registers up to 4 words",
+    "C11": "session 3: Wishbone part: L2 lane as C06 (time-outs up to 8 with faulty slaves); Recovers was vacuous and is repaired (premise NoHog, canary); AXI-Lite and AXI4 time-outs are covered by their own contracts (specs/axilto), no model",
+    "C08": "session 3: L2 lane (AxiLiteIcModel, both directions in one product): M-mode at 3x3 with 3 outstanding adds DirectionsShareNothing and ReadWriteIndependent; AXILiteTimeout and the AXI4 twin have no model",
+    "C06": "session 3: L2 lane (WbIcModel: RoundRobin, Arbiter, Decoder, Timeout, shared/crossbar): conformance on all graph edges + random 4x4 runs, M-mode up to 4 masters / 4 slaves; the liveness clause Served was vacuous and is repaired (premise NoHog) with a stuck-grant canary",
+    "C05": "session 3: L2 lane (CdcModel): set-valued metastable successors conform on 537k graph edges; M-mode explores the FIFO crossings under UNBOUNDED clock drift (depth 4 two-valued, 8/16 single-valued tokens) and measures the shortest safe BusSynchronizer time-out (4R+6), canaries replayed on the netlist; the model gives no verdict",
     "C01": "session 3: eight back-end defects repaired in /repo (signed literals, signedness of comparisons / shifts / selects, Case "
            "items of a signed test, whole slice of a signed value, initial value of register ports); the overflow classes no longer "
            "absorb those causes; 25 listed classes remain (intermediate overflow as named by the property, simulator-side exact "
